@@ -44,13 +44,15 @@ pub enum Kind {
     DlySrc,
     /// two stateful calls inside a tuple expression
     TupCalls,
+    /// stateful calls as the fields of a record literal
+    RecCalls,
 }
 
 /// Kinds used for generation. `Kind::Gate` (stateful calls in both arms of an `if`) is NOT in this
 /// list: on the pinned tree the VM underflows its state position on such programs (panic with
 /// overflow checks, heap corruption / abort without) even in a fault-free run. That is a crash of
 /// an accepted program (C03/C05 territory, not claimed here) and would only kill workers.
-pub const ALL_KINDS: [Kind; 23] = [
+pub const ALL_KINDS: [Kind; 24] = [
     Kind::Counter,
     Kind::Leaky,
     Kind::Lag2,
@@ -74,6 +76,7 @@ pub const ALL_KINDS: [Kind; 23] = [
     Kind::Duo,
     Kind::DlySrc,
     Kind::TupCalls,
+    Kind::RecCalls,
 ];
 
 #[derive(Clone, Copy, Debug, PartialEq, Serialize, Deserialize)]
@@ -164,6 +167,7 @@ impl Voice {
             Kind::Duo => format!("duo{}", self.id),
             Kind::DlySrc => format!("dlysrc{}", self.id),
             Kind::TupCalls => "tupcalls".into(),
+            Kind::RecCalls => "reccalls".into(),
         };
         base
     }
@@ -188,7 +192,7 @@ impl Voice {
             Kind::Echo => vec![x, lit(self.p[0])],
             Kind::EchoMod => vec![x, lit(self.p[0]), lit(self.p[1])],
             Kind::Pair => vec![lit(self.p[0])],
-            Kind::Nest | Kind::Deep | Kind::CntMem | Kind::TupCalls => vec![lit(self.p[0])],
+            Kind::Nest | Kind::Deep | Kind::CntMem | Kind::TupCalls | Kind::RecCalls => vec![lit(self.p[0])],
             Kind::Late | Kind::LateMem => vec![lit(self.p[0]), lit(self.p[1])],
             Kind::Gate => vec![lit(self.p[0]), lit(self.p[1]), lit(self.p[2])],
             Kind::Comb => vec![x, lit(self.p[0]), lit(self.p[1])],
@@ -263,6 +267,17 @@ impl Voice {
                 "fn pair(a){\n  let (p,q) = self\n  (q + a, p)\n}".into(),
             )],
             Kind::Nest => vec![cnt, nest],
+            Kind::RecCalls => vec![
+                cnt,
+                (
+                    "lag1".into(),
+                    "fn lag1(x){\n  mem(x)\n}".into(),
+                ),
+                (
+                    "reccalls".into(),
+                    "fn reccalls(inc){\n  let r = {level = cnt(inc), cutoff = cnt(inc * 2.0), detune = lag1(inc + now)}\n  r.level - r.cutoff * 0.25 + r.detune\n}".into(),
+                ),
+            ],
             Kind::TupCalls => vec![
                 cnt,
                 (
@@ -406,7 +421,7 @@ impl Model {
         let ns = match v.kind {
             Kind::Counter | Kind::Leaky | Kind::Clk | Kind::SrPhase | Kind::ArrPhase | Kind::GlobK | Kind::MainCl => 1,
             Kind::Lag2 | Kind::Mfb | Kind::Pair | Kind::Nest | Kind::CntMem | Kind::Late | Kind::TupCalls => 2,
-            Kind::Gate | Kind::Wide | Kind::Deep | Kind::Mmf | Kind::LateMem => 3,
+            Kind::Gate | Kind::Wide | Kind::Deep | Kind::Mmf | Kind::LateMem | Kind::RecCalls => 3,
             Kind::Echo | Kind::Duo => 0,
             Kind::EchoMod | Kind::Comb | Kind::DlySrc => 1,
         };
@@ -519,6 +534,13 @@ impl Model {
                 self.s[1] += p[0] * 2.0;
                 self.s[0] - self.s[1] * 0.25
             }
+            Kind::RecCalls => {
+                self.s[0] += p[0];
+                self.s[1] += p[0] * 2.0;
+                let d = self.s[2];
+                self.s[2] = p[0] + now;
+                self.s[0] - self.s[1] * 0.25 + d
+            }
             Kind::Gate => {
                 let ph = Self::phasor(&mut self.s[0], p[0]);
                 // both arms of an `if` overlay the same state region (language design: the branch
@@ -610,7 +632,7 @@ pub fn gen_voice(rng: &mut Rng, id: u32, kind: Kind, n_in: u32, max_delay: u32) 
     };
     let mut p = [0.0; 3];
     match kind {
-        Kind::Counter | Kind::Pair | Kind::Nest | Kind::Deep | Kind::CntMem | Kind::Wide | Kind::Clk | Kind::TupCalls => {
+        Kind::Counter | Kind::Pair | Kind::Nest | Kind::Deep | Kind::CntMem | Kind::Wide | Kind::Clk | Kind::TupCalls | Kind::RecCalls => {
             p[0] = small(rng)
         }
         Kind::SrPhase => p[0] = *rng.pick(&[110.0, 440.0, 1000.0, 12000.0]),
@@ -683,7 +705,7 @@ pub fn gen_voice(rng: &mut Rng, id: u32, kind: Kind, n_in: u32, max_delay: u32) 
 /// has no editable constant.
 pub fn tweak_constant(rng: &mut Rng, v: &mut Voice) -> bool {
     match v.kind {
-        Kind::Counter | Kind::Pair | Kind::Nest | Kind::Deep | Kind::CntMem | Kind::Wide | Kind::Clk | Kind::SrPhase | Kind::GlobK | Kind::MainCl | Kind::TupCalls => {
+        Kind::Counter | Kind::Pair | Kind::Nest | Kind::Deep | Kind::CntMem | Kind::Wide | Kind::Clk | Kind::SrPhase | Kind::GlobK | Kind::MainCl | Kind::TupCalls | Kind::RecCalls => {
             v.p[0] += (rng.range(1, 8) as f64) * 0.25;
             true
         }
